@@ -386,7 +386,7 @@ def parser_models(ctx):
     for k, script in enumerate(scripts):
         if not ctx.mine(k):
             continue
-        Model = fsic.build_model(fsic.parse_model(script))
+        Model = fsic.build_model(fsic.parse_model(script), with_type_hints=(k % 2 == 0))
         L, D = Model.LAGS, Model.LEADS
         for n in range(L + D + 1, L + D + ctx.pick(4, 7)):
             for spec in spans.catalogue(n)[:: ctx.pick(3, 1)]:
